@@ -131,6 +131,7 @@ PATTERNS_QUICK = [
     ((), (), ()),
     ((2,), (2,), (2,)), ((2,), (), ()), ((), (2,), (2,)), ((), (1,), (2,)), ((2,), (1,), (2,)), ((1,), (2,), ()),
     ((2, 3), (2, 3), (2, 3)), ((2, 1), (3,), (1, 3)), ((), (2, 3), (3,)), ((3,), (2, 1), (2, 3)), ((2, 3), (), (1, 1)),
+    ((2,), (2, 1, 1), (1, 2, 2)),          # three batch dimensions
 ]
 # Cells in which the batch comes from the KERNEL only and the last batch size equals the number of points used by
 # part E (n = 3): a `batch x n` diagonal is then square — `diag=True` must not take a second diagonal of it.
@@ -534,6 +535,8 @@ def part_C(ctx, lines, recs, seedval):
         exprs = [ix for ix in exprs if sum(1 for i in ix if i != "E" and i[0] == "T") <= 1]
         if ctx.quick:
             exprs = exprs[::3]
+            if len(exprs) > 900:
+                exprs = exprs[:200] + rng.sample(exprs[200:], 700)
         elif len(exprs) > 260:
             exprs = exprs[:60] + rng.sample(exprs[60:], 200)
         x1flat = cell.x1.reshape(-1, D_IN)
@@ -640,6 +643,20 @@ def part_B(ctx, seedval):
             # lazily evaluated == eager
             desc = f"B0|{name}|{kb}|{b1}|{b2}"
             ctx.case(desc)
+            # rarely used branch: settings.trace_mode (RBF / Matern skip their custom autograd functions)
+            try:
+                import gpytorch as _g
+                import torch as _t
+                with _t.no_grad(), _g.settings.trace_mode(True), _g.settings.lazily_evaluate_kernels(False), warnings.catch_warnings():
+                    warnings.simplefilter("ignore")
+                    D_trace = _dense(cell.kernel(cell.x1, cell.x2)).detach()
+                ctx.case(desc + "|trace_mode")
+                if not _close(D_trace, cell.D_eager):
+                    ctx.fail(f"trace-mode:{name}", f"{name} {kb}/{b1}/{b2}: kernel(x1,x2) under settings.trace_mode differs: "
+                             f"{_maxerr(D_trace, cell.D_eager)}", dict(cell.desc(), part="lazy-vs-eager"))
+            except Exception as e:
+                cell.restore()
+                ctx.count("trace_mode_rejected")
             if not _close(cell.D_lazy, cell.D_eager):
                 ctx.fail(f"lazy-vs-eager:{name}", f"{name} {kb}/{b1}/{b2}: lazily evaluated kernel differs from eager: "
                          f"{_maxerr(cell.D_lazy, cell.D_eager)}", dict(cell.desc(), part="lazy-vs-eager"))
@@ -654,6 +671,8 @@ def part_B(ctx, seedval):
                 exprs = rng.sample(exprs, min(keep, len(exprs)))
             elif ctx.quick:
                 keep = 700 if (name == "rbf" and pi == 0) else (420 if name == "rbf" else 250)
+                if len(cell.bs) >= 3:
+                    keep = 160
                 if len(exprs) > keep:
                     exprs = exprs[:keep // 3] + rng.sample(exprs[keep // 3:], keep - keep // 3)
             for ix in exprs:
@@ -882,6 +901,193 @@ def part_E(ctx, seedval, only=None, lines=None, recs=None):
                                  f"{_maxerr(got, want)}", dict(base, part="expand_batch", new=new))
 
 
+
+# ------------------------------------------------------------------ part F: active_dims in every listed ORDER
+
+def part_F(ctx, seedval):
+    """`active_dims` restricts a kernel to exactly the listed columns **in the listed order**: every ordered selection
+    of 1..3 of the 3 input columns (ascending, descending, contiguous or not) x kernels that are not permutation
+    invariant in their columns (ARD lengthscales / variances, nested sub-kernels with their own active_dims) x
+    non-batched / batched x lazy on / off x {dense, diag=True, kernel[i], expand_batch}.  Oracle: the same kernel
+    WITHOUT the outer active_dims applied to x[..., active_dims]."""
+    import torch
+    import gpytorch
+    from gpytorch import kernels as K
+    sels = [p_ for r in (1, 2, 3) for p_ in itertools.permutations(range(D_IN), r)]
+
+    def build(fam, ad, b):
+        B = torch.Size(b)
+        d = len(ad) if ad is not None else None
+        kw = {} if ad is None else {"active_dims": list(ad)}
+        if fam == "rbf_ard":
+            return lambda dd: K.RBFKernel(ard_num_dims=dd, batch_shape=B, **kw)
+        if fam == "scale_matern_ard":
+            return lambda dd: K.ScaleKernel(K.MaternKernel(nu=1.5, ard_num_dims=dd, batch_shape=B, **kw), batch_shape=B)
+        if fam == "linear_ard":
+            return lambda dd: K.LinearKernel(ard_num_dims=dd, batch_shape=B, **kw)
+        if fam == "rq_ard_times_periodic":
+            return lambda dd: K.ProductKernel(K.RQKernel(ard_num_dims=dd, batch_shape=B, **kw),
+                                              K.PeriodicKernel(ard_num_dims=dd, batch_shape=B, **kw))
+        if fam == "nested":    # sub-kernels with their own active_dims inside an outer selection
+            return lambda dd: K.ScaleKernel(K.AdditiveKernel(*[K.RBFKernel(batch_shape=B, active_dims=[i]) for i in range(dd)]),
+                                            batch_shape=B, **kw)
+        raise ValueError(fam)
+    fams = ("rbf_ard", "scale_matern_ard", "linear_ard", "rq_ard_times_periodic", "nested")
+    g = _gen(seedval, "F:inputs")
+    n = 4
+    for fam in fams:
+        for ad in sels:
+            if ctx.quick and fam in ("rq_ard_times_periodic",) and len(ad) == 1:
+                continue
+            for kb in ((), (2,)):
+                x1 = _randn(g, *kb, n, D_IN)
+                x2 = _randn(g, *kb, n, D_IN)
+                kad = build(fam, ad, kb)(len(ad)).double()
+                kref = build(fam, None, kb)(len(ad)).double()
+                gp = _gen(seedval, f"F:{fam}:{ad}:{kb}")
+                with torch.no_grad():
+                    for p_ in kad.parameters():
+                        p_.copy_(0.6 * torch.randn(p_.shape, generator=gp, dtype=torch.float64))
+                kref.load_state_dict(kad.state_dict(), strict=False)
+                sel = list(ad)
+                base = {"part": "active-dims-order", "family": fam, "active_dims": sel, "kernel_batch": list(kb)}
+                tag = f"F|{fam}|{ad}|{kb}"
+
+                def report(what, got, want, lazy):
+                    ctx.case(f"{tag}|{what}|lazy={int(lazy)}", nontrivial=len(ad) > 1)
+                    if not _close(got, want):
+                        ctx.fail("active_dims:column-order",
+                                 f"{fam} active_dims={sel} kernel batch {kb} lazy={lazy}: {what} differs from the same kernel "
+                                 f"without active_dims applied to x[..., {sel}] (listed order): {_maxerr(got, want)}",
+                                 dict(base, what=what, lazy=lazy))
+                for lazy in (True, False):
+                    try:
+                        with torch.no_grad(), gpytorch.settings.lazily_evaluate_kernels(lazy), warnings.catch_warnings():
+                            warnings.simplefilter("ignore")
+                            want = _dense(kref(x1[..., sel], x2[..., sel])).detach()
+                            report("kernel(x1,x2)", _dense(kad(x1, x2)).detach(), want, lazy)
+                            report("kernel(x1) (x2 omitted)", _dense(kad(x1)).detach(), _dense(kref(x1[..., sel])).detach(), lazy)
+                            wd = want.diagonal(dim1=-1, dim2=-2)
+                            report("kernel(x1,x2,diag=True)", _dense(kad(x1, x2, diag=True)).detach(), wd, lazy)
+                            report("kernel(x1,x2).diagonal()", _dense(kad(x1, x2).diagonal(dim1=-1, dim2=-2)).detach(), wd, lazy)
+                            if kb:
+                                for i in range(kb[0]):
+                                    report(f"kernel[{i}](x1[{i}],x2[{i}])", _dense(kad[i](x1[i], x2[i])).detach(), want[i], lazy)
+                                    report(f"kernel(x1,x2)[{i}]", _dense(kad(x1, x2)[i]).detach(), want[i], lazy)
+                                ke = kad.expand_batch(torch.Size([3] + list(kb)))
+                                report("expand_batch", _dense(ke(x1, x2)).detach(), want.expand(3, *want.shape), lazy)
+                    except Exception as e:
+                        ctx.case(f"{tag}|raises|lazy={int(lazy)}")
+                        ctx.fail("active_dims:column-order:raises", f"{fam} active_dims={sel} kernel batch {kb} lazy={lazy}: raises "
+                                 f"{type(e).__name__}: {str(e)[:160]}", dict(base, what="raises", lazy=lazy))
+
+
+# ------------------------------------------------------------------ part G: aliased inputs (same object / views of one storage)
+
+def _slice_pool():
+    return [("S", a, b, c) for a in (None, 1) for b in (None, 3, -1) for c in (None, 2, 3)]
+
+
+def part_G(ctx, seedval, only=None):
+    """Inputs that alias each other: `kernel(x)` (x2 omitted), `kernel(x, x)` with the very same tensor object, and two
+    DIFFERENT views of one storage with the same start element and shape.  Oracle: the kernel on independent copies.
+    Checked: dense value, diag, .mT, repeat with UNEQUAL row / column (and batch) counts, and every pair of row / column
+    slices with start in {None,1}, stop in {None,3,-1}, step in {None,2,3} (equal start and length but different strides
+    arise here), lazily_evaluate_kernels on and off."""
+    import torch
+    import gpytorch
+    names = list(kernel_factories())
+    pool = _slice_pool()
+    rng = ctx.rng("G")
+    for name in names:
+        if only is not None and name != only[0]:
+            continue
+        t = MULTI_T.get(name, 1)
+        for kb, bx in (((), ()), ((2,), (2,)), ((2,), ())):
+            if only is not None and (list(kb), list(bx)) != only[1]:
+                continue
+            if t > 1 and kb:
+                continue
+            n = 6 if t == 1 else 3
+            kernel = make_kernel(name, kb, seedval)
+            g = _gen(seedval, f"G:{name}:{kb}:{bx}")
+            x = _randn(g, *bx, n, D_IN)
+            base = {"part": "alias", "kernel": name, "kernel_batch": list(kb), "x_batch": list(bx)}
+            tag = f"G|{name}|{kb}|{bx}"
+            try:
+                with torch.no_grad(), gpytorch.settings.lazily_evaluate_kernels(False), warnings.catch_warnings():
+                    warnings.simplefilter("ignore")
+                    D = _dense(kernel(x.clone(), x.clone().clone())).detach()
+            except Exception as e:
+                ctx.count("G_cells_rejected")
+                continue
+            bs = tuple(D.shape[:-2])
+
+            def check(what, fn, want, lazy, mode):
+                ctx.case(f"{tag}|{mode}|{what}|lazy={int(lazy)}")
+                try:
+                    with torch.no_grad(), gpytorch.settings.lazily_evaluate_kernels(lazy), warnings.catch_warnings():
+                        warnings.simplefilter("ignore")
+                        got = _dense(fn()).detach()
+                except Exception as e:
+                    ctx.count("G_rejected")
+                    rj = ctx.notes.setdefault("G_rejections", {})
+                    rj[f"{name}:{what.split('[')[0].split('(')[0]}:{type(e).__name__}"] = str(e)[:80]
+                    return
+                if got.shape != want.shape and what.startswith("diag=True"):
+                    try:
+                        got = got.expand(want.shape)
+                    except RuntimeError:
+                        pass
+                if not _close(got, want):
+                    ctx.fail(f"aliasing:{what.split('[')[0].split('(')[0]}",
+                             f"{name} kernel batch {kb}, x batch {bx}, inputs {mode}, lazy={lazy}: {what} differs from the kernel on "
+                             f"independent copies of the inputs: {_maxerr(got, want)}", dict(base, what=what, mode=mode, lazy=lazy))
+            modes = {"x2 omitted": lambda: kernel(x), "x2 is x1": lambda: kernel(x, x)}
+            reps = [(2, 3), (1, 2), (3, 1)]
+            for lazy in (True, False):
+                for mode, K_ in modes.items():
+                    check("dense", K_, D, lazy, mode)
+                    check("diagonal", lambda: K_().diagonal(dim1=-1, dim2=-2), D.diagonal(dim1=-1, dim2=-2), lazy, mode)
+                    check("mT", lambda: K_().mT, D.mT, lazy, mode)
+                    for (r_, c_) in reps:
+                        full = [1] * len(bs) + [r_, c_]
+                        check(f"repeat{tuple(full)}", lambda: K_().repeat(*full), D.repeat(*full), lazy, mode)
+                        if bs:
+                            fullb = [2] + [1] * (len(bs) - 1) + [r_, c_]
+                            check(f"repeat{tuple(fullb)}", lambda: K_().repeat(*fullb), D.repeat(*fullb), lazy, mode)
+                check("diag=True", lambda: kernel(x, diag=True), D.diagonal(dim1=-1, dim2=-2), lazy, "x2 omitted")
+            # row / column slice pairs on the lazily evaluated kernel(x)
+            pairs = [(a, b) for a in pool for b in pool]
+            if kb or bx:
+                pairs = rng.sample(pairs, 60)
+            elif ctx.quick and name not in ("linear", "prod", "sum", "scale_rbf"):
+                pairs = rng.sample(pairs, 90)
+            for (rs, cs) in pairs:
+                idx = ("E", rs, cs)
+                pidx = tuple(py_item(i) for i in idx)
+                want = D[pidx]
+                if 0 in want.shape:
+                    continue
+                check(f"getitem{show_idx(idx)}", lambda: kernel(x)[pidx], want, True, "x2 omitted")
+            # two different views of one storage: same start element, same shape, different strides
+            gb = _gen(seedval, f"G:views:{name}:{kb}:{bx}")
+            m = 3
+            basebuf = _randn(gb, *bx, 2 * m, D_IN)
+            v1, v2 = basebuf[..., :m, :], basebuf[..., ::2, :]
+            sq = _randn(gb, *bx, D_IN, D_IN)
+            for what, (a, b) in (("views base[:n] / base[::2]", (v1, v2)), ("views x / x.mT", (sq, sq.mT))):
+                if t > 1 and what.endswith("x.mT"):
+                    pass
+                try:
+                    with torch.no_grad(), gpytorch.settings.lazily_evaluate_kernels(False), warnings.catch_warnings():
+                        warnings.simplefilter("ignore")
+                        want = _dense(kernel(a.clone(), b.clone())).detach()
+                except Exception:
+                    continue
+                for lazy in (True, False):
+                    check(what, lambda: kernel(a, b), want, lazy, "views of one storage")
+
 # ------------------------------------------------------------------ driver comparison
 
 def compare_driver(ctx, lines, recs):
@@ -1042,6 +1248,8 @@ def correspondence(ctx, want_driver=True):
         part_B(ctx, seedval)
         part_E(ctx, seedval, lines=lines if want_driver else None, recs=recs if want_driver else None)
         part_D(ctx, lines, recs, seedval)
+        part_F(ctx, seedval)
+        part_G(ctx, seedval)
         if want_driver:
             part_A(ctx, lines, recs)
             part_C(ctx, lines, recs, seedval)
@@ -1051,7 +1259,7 @@ def correspondence(ctx, want_driver=True):
     if want_driver:
         compare_driver(ctx, lines, recs)
     # run.py prints the first 8 distinct keys: one representative per defect class first
-    prio = ["active_dims:column-selection", "kernel-call", "kernel-getitem:active_dims", "expand_batch:active_dims", "getitem:multiout", "getitem:batch-slice-of-broadcast-dim",
+    prio = ["active_dims:column-order", "aliasing:", "active_dims:column-selection", "kernel-call", "kernel-getitem:active_dims", "expand_batch:active_dims", "getitem:multiout", "getitem:batch-slice-of-broadcast-dim",
             "repeat:", "diag:", "transpose:", "blocks:", "lazy-vs-eager", "getitem:values", "getitem:empty", "kernel-getitem",
             "expand_batch", "rejects-valid-index", "linear_operator"]
 
@@ -1078,6 +1286,15 @@ def replay(ctx, payload):
     try:
         c = payload["case"]
         seedval = payload.get("seed", 0)
+        if c.get("part") in ("active-dims-order", "alias"):
+            sub = Ctx0()
+            if c["part"] == "active-dims-order":
+                part_F(sub, seedval)
+                key = (c["family"], c["active_dims"], c["kernel_batch"])
+                return not any(f[2].get("family") == key[0] and f[2].get("active_dims") == key[1]
+                               and f[2].get("kernel_batch") == key[2] for f in sub.failures3)
+            part_G(sub, seedval, only=(c["kernel"], (c["kernel_batch"], c["x_batch"])))
+            return not sub.failures
         cell = Cell(c["kernel"], tuple(c["kernel_batch"]), tuple(c["x1_batch"]), tuple(c["x2_batch"]), c["n1"], c["n2"], seedval)
         sub = Ctx0()
         if not cell.ok:
@@ -1100,6 +1317,7 @@ class Ctx0:
 
     def __init__(self):
         self.failures, self.notes, self.quick, self.tier = [], {}, True, "quick"
+        self.failures3 = []
 
     def case(self, *a, **k):
         pass
@@ -1109,6 +1327,7 @@ class Ctx0:
 
     def fail(self, key, what, replay):
         self.failures.append((key, what))
+        self.failures3 = getattr(self, "failures3", []) + [(key, what, replay)]
 
     def broke(self, *a, **k):
         pass
